@@ -42,14 +42,16 @@ def run(ctx):
     cfg = ctx.cfg(bq)
     ops, base, rets = qshape.query_ops(cfg, bq.node)
     flt = [o for o in ops if o.name == 'filter' and o.always]
-    txts = [o.args_text() for o in flt]
-    r1.check(any('task_execution_id == sa.null()' in t or
-                 'task_execution_id.is_(None)' in t for t in txts),
+    r1.check(any(U.phas(o.call, '___.task_execution_id == sa.null()') or
+                 U.phas(o.call, '___.task_execution_id.is_(None)') or
+                 U.phas(o.call, '___.task_execution_id == None')
+                 for o in flt),
              ctx.construct(bq, extra='root executions only'),
              'the base query does not filter task_execution_id IS NULL on '
              'every path (sub-executions could be deleted on their own)',
              ctx.loc(bq))
-    r1.check(any('state.in_(desired_states)' in t for t in txts),
+    r1.check(any(U.phas(o.call, '___.state.in_(desired_states)')
+                 for o in flt),
              ctx.construct(bq, extra='state filter'),
              'the base query does not filter the state on every path',
              ctx.loc(bq))
@@ -157,8 +159,15 @@ def run(ctx):
              ctx.construct(de, extra='sources'),
              'deletion candidates come from %s' % sorted(srcs), ctx.loc(de))
     ck = prog.func(EP + '._check_ignored_states_config')
-    r2.check(any(isinstance(n, ast.Raise) for n in own_nodes(ck.node)) and
-             'not in states.TERMINAL_STATES' in ast.unparse(ck.node),
+    kcfg = ctx.cfg(ck)
+    okk = False
+    for x in kcfg.nodes:
+        if x.kind == 'stmt' and isinstance(x.ast, ast.Raise):
+            g = [t for (t, pol, _g) in kcfg.guards(x)
+                 if isinstance(t, ast.expr) and pol]
+            okk = okk or any(U.phas(t, '__s not in states.TERMINAL_STATES')
+                             for t in g)
+    r2.check(okk,
              ctx.construct(ck), 'non-terminal ignored states are not '
              'rejected', ctx.loc(ck))
     st = prog.func(EP + '.setup')
@@ -236,8 +245,7 @@ def run(ctx):
              'is configured', ctx.loc(de))
     # enabling predicate treats both options alike
     init = prog.func(EP + '.ExecutionExpirationPolicy.__init__')
-    txt = ' '.join(ast.unparse(init.node).split())
-    r4.check('ot and ot >= 1' in txt and 'mfe and mfe >= 1' in txt,
+    r4.check(U.phas(init.node, '(__o and __o >= 1) or (__m and __m >= 1)'),
              ctx.construct(init, extra='enabling predicate'),
              'the policy is no longer enabled by "option >= 1" for either '
              'option', ctx.loc(init))
